@@ -243,9 +243,10 @@ func c07Capacity(w *fw.W, idx int, r *fw.Rand) {
 	case 2: // code size inside a computed value
 		n = fw.PickT(r, []int{100, 127, 128, 129, 4095, 4096, 4097})
 		src, want, fam = "&c = "+strings.TrimSuffix(strings.Repeat("1+", n), "+")+"; c", fmt.Sprintf("i%d", n), "code-size-computed"
-	case 3: // operand stack: n-element literal, summed
+	case 3: // operand stack: n-element literal of every kind of pushing instruction, measured
 		n = fw.PickT(r, []int{10, 500, 997, 998, 999, 1000, 1001, 1500})
-		src, want, fam = "["+strings.TrimSuffix(strings.Repeat("1,", n), ",")+"].sum()", fmt.Sprintf("i%d", n), "operand-stack"
+		el := r.Pick([]string{"1", "1", "[]", "{}", "f", "'s'", "x", "d1", "1.5", "null", "[1]", "b0", "`t`", "toStr"})
+		src, want, fam = "["+strings.TrimSuffix(strings.Repeat(el+",", n), ",")+"].len()", fmt.Sprintf("i%d", n), "operand-stack"
 	case 4: // nested blocks
 		n = fw.PickT(r, []int{1, 10, 18, 19, 20, 21, 22, 30})
 		src, want, fam = "x = 0; "+strings.Repeat("if 1 { ", n)+"x = 7"+strings.Repeat(" }", n)+"; x", "i7", "block-nesting"
